@@ -74,6 +74,14 @@ def handle (cmd : String) (fs : List String) : String :=
     match confFile (parseFormat fmt) (parseData d) cmakeFuel (decodeStr t) with
     | .error e => showErr e
     | .ok (txt, m, u) => s!"OK|{encodeStr txt}|{canonNames m}|{boolStr u}"
+  | "fileb", [enc, fmt, d, b] =>
+    let codec := if enc == "latin1" then latin1 else utf8
+    let bytes : Bytes := (b.splitOn " ").filterMap fun w => if w.isEmpty then none else w.toNat?.map Nat.toUInt8
+    match confFileBytes codec (parseFormat fmt) (parseData d) cmakeFuel bytes with
+    | .error .read => "ERR:read"
+    | .error .write => "ERR:write"
+    | .error (.conf e) => showErr e
+    | .ok out => "OK|" ++ " ".intercalate (out.map fun x => toString x.toNat)
   | "split", [t] => showLines (splitLines (decodeStr t))
   | "hdr", [f, mf, m, es] =>
     let hf := if f == "nasm" then HdrFormat.nasm else HdrFormat.c
